@@ -151,6 +151,12 @@ def check_C08(ctx):
             mut = rng.choice(["del", "ins", "rep"])
             ch = rng.choice(CLASS_CHARS + EXTRA_CHARS)
             strings.append(sp[:i] + (sp[i + 1:] if mut == "del" else ch + sp[i:] if mut == "ins" else ch + sp[i + 1:]))
+    # every byte value in every lexical position (the byte classes of the lexer are tied to the model's by their values on
+    # all 256 bytes -- Tie 2 --; these strings turn a difference there into a concrete spec)
+    for b_ in range(256):
+        ch = chr(b_)
+        for tpl in ("%s", "-%s", "--%s", "--a%s", "--%sa", "--aa%s", "-a%s", "X%s", "%sX", "-a=<%s>", "-a %s X", "--aa%s=<v>", "[-a]%s"):
+            strings.append(tpl % ch)
     strings = list(dict.fromkeys(strings))
     lex_cases = [{"op": "lex", "spec": s} for s in strings]
     comp_cases = [{"op": "compile", "decls": decls, "spec": s, "env": {}} for s in strings]
@@ -915,8 +921,9 @@ def expected_help(cmds, long, tbl):
 def check_C17(ctx):
     rng = ctx.rng
     cases, meta, printed = [], [], []
-    defs = {"bool": [["false"], ["true"]], "string": [[""], ["dflt"], ['q"uo\\te'], ["build-%d"], ["100%"]], "int": [["0"], ["-42"]], "float": [["0"], ["2.5"], ["1e21"]],
-            "strings": [[], ["a", "b c"], ["%s", "x%"]], "ints": [[], ["4", "5"]], "floats": [[], ["0.5", "100000"]]}
+    defs = {"bool": [["false"], ["true"]], "string": [[""], ["dflt"], ['q"uo\\te'], ["build-%d"], ["100%"]], "int": [["0"], ["-42"]], "float": [["0"], ["2.5"], ["1e21"], ["3.141592653589793"], ["1e-60"]],
+            "strings": [[], ["a", "b c"], ["%s", "x%"]], "ints": [[], ["4", "5"], ["-9223372036854775808", "9223372036854775807"]],
+            "floats": [[], ["0.5", "100000"], ["3.141592653589793", "1e-60"], ["1e300", "0.1234567891", "16777217"]]}
     floats = set()
     for k_ in range(ctx.scale(700, 7000)):
         big = k_ % 35 == 0        # a few commands with many options and many sub-commands
@@ -1416,7 +1423,7 @@ def check_C20(ctx):
             races += 1
             ctx.violation("race", "the race detector reports a data race between concurrently built and run applications:\n"
                           + p.stderr[:3000], cases=[c["argv"] for c in chunk[0]["cases"]][:3])
-        lines = [json.loads(l) for l in p.stdout.splitlines() if l.startswith("{")]
+        lines = [json.loads(l) for l in p.stdout.split("\n") if l.startswith("{")]
         byid = {o.get("id"): o for o in lines}
         for r in chunk:
             o = byid.get(r["id"])
